@@ -5,10 +5,7 @@ from typing import Dict
 
 CHECKS: Dict[str, Dict[str, str]] = {
     "C12": dict(
-        technique="static analysis: Constant.__init__ and the inclusive_value_range definitions are abstractly evaluated from the "
-        "parsed source (constructor chain flattened, helpers expanded) on a complete finite abstract domain (type kind "
-        "x value kind incl. code-point classes x range position; all 63+64 integer widths and the three float formats) "
-        "and compared with the Specification's acceptance table and range tables",
+        technique="static analysis: Constant.__init__ and the inclusive_value_range definitions are abstractly evaluated from the parsed source (constructor chain flattened, helpers expanded) on a complete finite abstract domain (type kind x value kind incl. code-point classes x range position; all 63+64 integer widths and the three float formats) and compared with the Specification's acceptance table and range tables; single characters whose Unicode normal forms are ASCII among the value kinds",
         text="Static decision of the constant-compliance rules from the source: the acceptance predicate of "
         "Constant.__init__ is extracted as path conditions and compared with the Specification on every abstract state "
         "(the code touches values only through isinstance tests and comparisons against the two bounds, so the "
@@ -19,10 +16,7 @@ CHECKS: Dict[str, Dict[str, str]] = {
         design="3/C12",
     ),
     "C05": dict(
-        technique="static analysis: constructors of the type model abstractly evaluated over finite boundary domains (accepted "
-        "regions on both sides of every boundary); decision tables of the directive handlers and of finalize via the "
-        "builder driven through its public callbacks; reserved-name patterns compared by DFA language equivalence; "
-        "exception-class resolution over the class hierarchy",
+        technique='static analysis: constructors of the type model abstractly evaluated over finite boundary domains (accepted regions on both sides of every boundary); decision tables of the directive handlers and of finalize via the builder driven through its public callbacks; reserved-name patterns compared by DFA language equivalence; exception-class resolution over the class hierarchy; the port-ID policy observed at the read of dependencies on the reader model; check_name on a grid of names when it is not written as the five guards the exact comparison reads',
         text="Every static rule of DSDL is located at its rule site (constructors of the type model, check_name, the "
         "_check_aggregation overrides, directive handlers, _make_composite, finalize, the regulated port-ID tables, the "
         "array forms of the parser) and decided from the source: numeric guards as accepted regions that include both sides "
@@ -35,10 +29,7 @@ CHECKS: Dict[str, Dict[str, str]] = {
         design="3/C05",
     ),
     "C11": dict(
-        technique="static analysis: the two cross-definition checks are abstractly evaluated from the parsed source over abstract "
-        "definitions for every consistent valuation of the accessor-comparison atoms (name, kind, majors, port-IDs "
-        "incl. zero, extent, sealing, service halves); outcome (accept / which error class) compared with the "
-        "Specification's formula; grouping and scopes observed on the same evaluation",
+        technique="static analysis: the two cross-definition checks are abstractly evaluated from the parsed source over abstract definitions for every consistent valuation of the accessor-comparison atoms (name, kind, majors, port-IDs incl. zero, extent, sealing, service halves); outcome (accept / which error class) compared with the Specification's formula; grouping and scopes observed on the same evaluation; lists of three definitions (all orders) for the collision check",
         text="The cross-definition checks touch definitions only through comparisons of a few accessors, so each decision is a "
         "function of finitely many atoms: the collision predicate (9 atoms, 280 consistent valuations) and the pairwise "
         "minor-version predicate (10 atoms, 640 valuations, including recursion into service halves and the error class) are "
@@ -61,7 +52,7 @@ CHECKS: Dict[str, Dict[str, str]] = {
         design="3/C02",
     ),
     "C16": dict(
-        technique='static analysis: kind/type inference + over-approximate call graph; who-may-call and reachability rules for the numerical-expansion sinks; linear-form (interval/congruence) proof that enumeration counts inside modulo are bounded by the divisor (enumerations found through helper summaries); provenance analysis of every divisor handed to a residue query (constant / alignment / parameter traced to its call sites)',
+        technique='static analysis: kind/type inference + over-approximate call graph; who-may-call and reachability rules for the numerical-expansion sinks; linear-form (interval/congruence) proof that enumeration counts inside modulo are bounded by the divisor (enumerations found through helper summaries); provenance analysis of every divisor handed to a residue query (constant / alignment / parameter traced to its call sites); types with capacities / extents of 2**40 constructed and queried by evaluation with lazy ranges that refuse to be enumerated',
         text="Decides the structural core of 'layout analysis stays symbolic': expansion sinks (Operator.expand overrides, "
         "BitLengthSet.__iter__/__len__, validate_numerically, any implicit iteration of a value of kind BitLengthSet) occur "
         "only in the allow-listed slow paths and the two DSDL intrinsics; no call-graph path leads from any model "
@@ -74,8 +65,7 @@ CHECKS: Dict[str, Dict[str, str]] = {
         design="3/C16",
     ),
     "C18": dict(
-        technique="static analysis: class-level lints over the resolved class hierarchy (state components read by __hash__ vs "
-        "compared by __eq__, eq path shapes, stores/mutators outside __init__, accessor return provenance, attribute value kinds)",
+        technique="static analysis: class-level lints over the resolved class hierarchy (state components read by __hash__ vs compared by __eq__, eq path shapes, stores/mutators outside __init__, accessor return provenance, attribute value kinds); equality / hash contract decided on instances built by the model's own constructors (types, attributes, bit length sets) evaluated from the source",
         text="For every class defining __eq__/__hash__ the components read by the hash are a subset of those compared by eq and "
         "both are overridden together; eq returns NotImplemented for foreign operands on every path; BitLengthSet.__eq__ is "
         "a conjunction of equalities of set-determined queries; no model class stores or mutates instance state outside "
@@ -97,9 +87,7 @@ CHECKS: Dict[str, Dict[str, str]] = {
         design="3/C19",
     ),
     "C13": dict(
-        technique="static analysis: interprocedural exception-flow over the resolved call graph (explicit raises, a fixed table of "
-        "implicit partial operations, handler matching over the class hierarchy, model of the parsimonious visitor wrapper), "
-        "value-kind inference for guarded constructors, regex-language inclusion for int()/Fraction() on grammar terminals",
+        technique='static analysis: interprocedural exception-flow over the resolved call graph (explicit raises, a fixed table of implicit partial operations, handler matching over the class hierarchy, model of the parsimonious visitor wrapper), value-kind inference for guarded constructors, regex-language inclusion for int()/Fraction() on grammar terminals; structural rule on recursion depth (operator queries recurse into operands, so no loop / fold over the fields may chain a composition onto its own previous result)',
         text="Computes, for read_namespace/read_files, every (exception class, origin) pair that can escape, following re-raise, "
         "translation and the visitor's VisitationError wrapping; anything that is not an InvalidDefinitionError (in particular "
         "everything that ends in an InternalError sink) must be discharged by a checked argument - typed-guard constructors by "
@@ -107,8 +95,7 @@ CHECKS: Dict[str, Dict[str, str]] = {
         "totality, indexing by dominating guards, abstract bodies by override completeness, service-type receivers by "
         "constructor guards - or is reported with its witness path. Four genuine defects found this way were repaired "
         "(see known_findings.json); termination and interpreter resource limits are assumptions, not decided.",
-        note="Trusted: the implicit-operation table (int/Fraction/chr/next/encode/log2/operator.*/literal tables/indexing); ~400 asserts "
-        "and grammar-arity unpackings are counted assumptions; OSError and path-argument handling are outside the property.",
+        note='Trusted: the implicit-operation table (int/Fraction/chr/next/encode/log2/operator.*/literal tables/indexing); ~400 asserts and grammar-arity unpackings are counted assumptions; OSError and path-argument handling are outside the property. Known finding F13 (C13.R4): a valid definition with more than about 200 fields ends in RecursionError; recorded in known_findings.json, not repaired.',
         design="3/C13",
     ),
     "C03": dict(
@@ -119,9 +106,7 @@ CHECKS: Dict[str, Dict[str, str]] = {
         design="3/C03",
     ),
     "C07": dict(
-        technique="static analysis: exception-flow over the call graph rooted at deserialize with semantic discharge of partial "
-        "operations; validation guards taken as decision tables from abstract decoder runs over boundary domains; "
-        "linear-form accounting of the bit offset and of the bounded reader's limit on every path (helpers expanded)",
+        technique="static analysis: exception-flow over the call graph rooted at deserialize with semantic discharge of partial operations; validation guards taken as decision tables from abstract decoder runs over boundary domains; linear-form accounting of the bit offset and of the bounded reader's limit on every path (helpers expanded); provenance of the buffer the bit reader is built over (the caller's data, not a lengthened copy)",
         text="(1) Every (class, origin) that can escape deserialize is a SerDesError/ValueError (TypeError only from the explicit "
         "service-type guards); indexing, struct.unpack and bytes() sites are discharged by dominating bounds checks, format "
         "sizes and 8-bit element provenance. (2) The array-length, union-tag and both delimiter-header guards are extracted "
@@ -133,8 +118,7 @@ CHECKS: Dict[str, Dict[str, str]] = {
         design="3/C07",
     ),
     "C17": dict(
-        technique="static analysis: handler-discipline lints, the C03 typestate automaton extended with line age, regular-language "
-        "test of every grammar terminal for line breaks, dataflow on handler bindings",
+        technique="static analysis: handler-discipline lints, the C03 typestate automaton extended with line age, regular-language test of every grammar terminal for line breaks, dataflow on handler bindings; faults planted at every stage of a definition's read and in a statement's type",
         text="Decides: each Error handler on the propagation path stamps its own file/line and re-raises the same object and the "
         "setter fills unknown fields only (so the dependency's location wins); in the explored automaton every deferred "
         "attribute commit on a later line runs inside a handler that re-attributes errors to a line captured by exactly the "
@@ -175,9 +159,7 @@ CHECKS: Dict[str, Dict[str, str]] = {
         design="3/C01",
     ),
     "C09": dict(
-        technique="static analysis: DataTypeBuilder.resolve_versioned_data_type and DSDLDefinition.read abstractly evaluated from "
-        "the parsed source over abstract lookup definitions (match count x letter case x version), with recorded reads, "
-        "arguments, builder constructions, file opens and cache behaviour",
+        technique='static analysis: DataTypeBuilder.resolve_versioned_data_type and DSDLDefinition.read abstractly evaluated from the parsed source over abstract lookup definitions (match count x letter case x version), with recorded reads, arguments, builder constructions, file opens and cache behaviour; candidates that have already been read, both port-ID policy settings, letter case in every name component of relative and absolute references',
         text="Decides: the filter is (case-insensitive full name) and (exact version) over the lookup list; the outcome over "
         "{0, 1, >=2 matches} x exact-case is undefined-type / name-collision / collision / read-that-definition, each error an "
         "InvalidDefinitionError; relative names are completed with the referrer's namespace; read() removes itself by "
@@ -189,10 +171,7 @@ CHECKS: Dict[str, Dict[str, str]] = {
         design="3/C09",
     ),
     "C10": dict(
-        technique="static analysis: order-taint dataflow (unordered kinds: sets, set comprehensions, rglob) with "
-        "sorted()/file_sort as sanitisers; sign analysis of the sort key; the namespace lister, the reader loop and the "
-        "root-directory validation abstractly evaluated over an abstract file system / abstract definitions / syntactic "
-        "paths, for every order of the targets and every pair of directories",
+        technique="static analysis: order-taint dataflow (unordered kinds: sets, set comprehensions, rglob) with sorted()/file_sort as sanitisers; sign analysis of the sort key; the namespace lister, the reader loop and the root-directory validation abstractly evaluated over an abstract file system / abstract definitions / syntactic paths, for every order of the targets and every pair of directories; directory aliases (symbolic links) in the abstract file system; the caller's directory list observed across two reads",
         text="Decides: every unordered collection in the four reader modules is sorted before it is returned or drives an "
         "order-sensitive loop (interprocedural through arguments); the key is (name up, major down, minor down) with no reverse "
         "flag; read_namespace lists both suffixes recursively under exactly the root and returns only `.direct`; the reader "
@@ -205,10 +184,7 @@ CHECKS: Dict[str, Dict[str, str]] = {
         design="3/C10",
     ),
     "C15": dict(
-        technique="static analysis: DSDLDefinition's constructor abstractly evaluated over syntactic paths (component counts, "
-        "numeric spellings); identity provenance observed by driving DataTypeBuilder through its public callbacks with "
-        "the composite constructors recorded; bare-name root inference evaluated over syntactic paths for every order "
-        "of the names",
+        technique="static analysis: DSDLDefinition's constructor abstractly evaluated over syntactic paths (component counts, numeric spellings); identity provenance observed by driving DataTypeBuilder through its public callbacks with the composite constructors recorded; bare-name root inference evaluated over syntactic paths for every order of the names; files outside the root directory and namespaces whose components repeat the root's name among the syntactic paths",
         text="Decides: 3 / 4 dot-separated components map to (name, major, minor) / (port, name, major, minor) and every other count "
         "is a FileNameFormatError; the namespace is the directory chain below and including the root; every numeric component "
         "is converted only behind an ASCII-digits guard inside a translating handler (the lax int() found here was repaired); "
@@ -244,9 +220,7 @@ CHECKS: Dict[str, Dict[str, str]] = {
         design="3/C08",
     ),
     "C14": dict(
-        technique="static analysis: the container layout evaluated for two revisions of a nested delimited type (term domain); "
-        "attribute-usage lint on containers; codec runs of the delimited writer / reader branches compared with "
-        "stand-alone runs of the inner type; who-may-access rule on the reader's buffer contents",
+        technique="static analysis: the container layout evaluated for two revisions of a nested delimited type (term domain); attribute-usage lint on containers; codec runs of the delimited writer / reader branches compared with stand-alone runs of the inner type; who-may-access rule on the reader's buffer contents; the delimiter-header guard's decision table for zero-extended and exactly fitting headers",
         text="Decides the three structural pillars of appendable types: (1) the delimited type's length set is a term over header "
         "width, alignment and declared extent only (the inner type is consulted only in the guard) and containers ask a nested "
         "type only for its length set and alignment - so a same-extent revision cannot change a container's set, extent or "
